@@ -148,7 +148,7 @@ def c01(case, lines):
     """session outputs and resource contents == from-scratch build of the same roots (well-formed)."""
     fails, items = [], parse(lines)
     for i, (k, it) in enumerate(items):
-        if k == "bad": fails.append(f"harness: {it}")
+        if k == "bad" and not it.startswith("bad-op"): fails.append(f"harness: {it}")
         if k != "clean" or i == 0 or items[i - 1][0] != "sess" or not it["op"].startswith("clean "): continue
         s = items[i - 1][1]
         reqs = [o for o in s.ops if o.text.startswith("req ")]
@@ -433,7 +433,7 @@ def c20(case, lines):
 def c07(case, lines):
     fails, items = [], parse(lines)
     for i, (k, s) in enumerate(items):
-        if k == "bad": fails.append(f"harness: {s}")
+        if k == "bad" and not s.startswith("bad-op"): fails.append(f"harness: {s}")
         if k != "sess": continue
         for o in s.ops:
             entered = []
